@@ -236,9 +236,17 @@ def rule_G(run, prog):
         for band in (0, 1, 2):
             for sig in _signatures(n, 2, band):
                 modes = [Stub("SubMode", omega=Sym(1.0, ("w%d" % m_,))) for m_ in range(nmodes)]
-                agg = Stub("Aggregate", monomers=[Stub("Molecule", elenergies=SymArr("E%d" % k)) for k in range(n)])
+                # units: the raw attributes (elenergies, omega) are internal; convert_energy_2_current_u multiplies by the
+                # factor f of the current units, and so do the molecule's public getters.  The energy of the state is
+                # of first degree in f: a value converted twice carries f*f
+                mols = []
+                for k in range(n):
+                    ml = Stub("Molecule", elenergies=SymArr("E%d" % k))
+                    ml.methods = {"get_energy": (lambda k_: lambda lev: Sym(1.0, ("E%d[%d]" % (k_, lev), "f")))(k)}
+                    mols.append(ml)
+                agg = Stub("Aggregate", monomers=mols)
                 so = Stub("ElectronicState", elsignature=sig, vibmodes=modes, vsiglength=nmodes, aggregate=agg)
-                so.methods = {"convert_energy_2_current_u": lambda v: v}
+                so.methods = {"convert_energy_2_current_u": lambda v: (v if isinstance(v, Sym) else Sym(float(v))) * Sym(1.0, ("f",))}
                 for vsig in ([None] + ([tuple(range(1, nmodes + 1))] if nmodes else [])):
                     ncfg += 1
                     try:
@@ -249,17 +257,17 @@ def rule_G(run, prog):
                         got = "raise %s" % e
                     exp = Sym(0.0)
                     for k in range(n):
-                        exp = exp + Sym(1.0, ("E%d[%d]" % (k, sig[k]),))
+                        exp = exp + Sym(1.0, ("E%d[%d]" % (k, sig[k]), "f"))
                     if vsig is not None:
                         for m_ in range(nmodes):
-                            exp = exp + Sym(float(vsig[m_]), ("w%d" % m_,))
+                            exp = exp + Sym(float(vsig[m_]), ("f", "w%d" % m_))
                     if isinstance(got, (int, float)):
                         got = Sym(got)
                     if not isinstance(got, Sym) or not got.same(exp):
                         bad.append((sig, vsig, repr(got), repr(exp)))
         run.obligation(rid, "ElectronicState.energy", not bad, key="finite:N=%d,modes=%d" % (n, nmodes),
                        message="state energy deviates from 'sum over all molecules of the energy of the occupied level "
-                               "plus the vibrational quanta' on %d of %d configurations; first: signature %s, quanta %s "
+                               "plus the vibrational quanta, converted once to the current units (factor f)' on %d of %d configurations; first: signature %s, quanta %s "
                                "gives %s, expected %s" % ((len(bad), ncfg) + (bad[0] if bad else ("", "", "", ""))),
                        loc=en.loc(), sample={"molecules": n, "modes": nmodes, "configurations": ncfg})
 
